@@ -1,6 +1,6 @@
 use crate::diagnostic_emitter::MosResult;
 use crate::impl_request_handler;
-use crate::lsp::{LspContext, RequestHandler};
+use crate::lsp::{document_path, line_and_offset, LspContext, RequestHandler};
 use itertools::Itertools;
 use lsp_types::request::Completion;
 use lsp_types::{CompletionItem, CompletionParams, CompletionResponse};
@@ -21,12 +21,11 @@ impl RequestHandler<Completion> for CompletionHandler {
         if let Some(codegen) = &ctx.codegen {
             let codegen = codegen.lock().unwrap();
             if let Some(tree) = &ctx.tree {
-                let path = &params
-                    .text_document_position
-                    .text_document
-                    .uri
-                    .to_file_path()
-                    .unwrap();
+                let path = match document_path(&params.text_document_position.text_document.uri) {
+                    Some(path) => path,
+                    None => return Ok(None),
+                };
+                let path = &path;
 
                 let source_line = params.text_document_position.position.line as usize;
                 let source_column = params.text_document_position.position.character as usize;
@@ -34,12 +33,15 @@ impl RequestHandler<Completion> for CompletionHandler {
                 // Try to determine the previous characters to see if we're trying to auto-complete inside a scope
                 let mut line = "";
                 let mut nested_scope = None;
-                if let Some(source_file) = codegen.tree().files.get(path) {
-                    line = source_file.file.source_line(source_line);
+                let position = codegen.tree().files.get(path).and_then(|source_file| {
+                    line_and_offset(&source_file.file, &params.text_document_position.position)
+                });
+                if let Some((text, offset)) = position {
+                    line = text;
 
-                    // Only look at the line until the source_column
-                    if source_column <= line.len() && source_column > 0 {
-                        let (line, suffix) = line.split_at(source_column - 1);
+                    // Only look at the line until the character in front of the position
+                    if let Some((before, _)) = line[..offset].char_indices().last() {
+                        let (line, suffix) = line.split_at(before);
 
                         // Are we autocompleting a dot?
                         if suffix.starts_with('.') {
